@@ -118,6 +118,59 @@ class SymBytes:
             raise ValueError("subsection not found")
         return r
 
+    def _strip(self, chars, left, right):
+        chars = tuple(_items(chars)) if chars is not None else tuple(b" \t\n\r\x0b\x0c")
+        items = list(self.items)
+
+        def hit(x):
+            return any(x == c for c in chars)
+
+        if left:
+            while items and hit(items[0]):
+                items.pop(0)
+        if right:
+            while items and hit(items[-1]):
+                items.pop()
+        return mk_bytes(items)
+
+    def lstrip(self, chars=None):
+        return self._strip(chars, True, False)
+
+    def rstrip(self, chars=None):
+        return self._strip(chars, False, True)
+
+    def strip(self, chars=None):
+        return self._strip(chars, True, True)
+
+    def endswith(self, p):
+        p = _items(p)
+        return len(p) <= len(self.items) and all(a == b for a, b in zip(self.items[len(self.items) - len(p) :], p))
+
+    def count(self, sub):
+        sub = _items(sub)
+        n = len(sub)
+        return sum(1 for i in range(len(self.items) - n + 1) if all(self.items[i + k] == sub[k] for k in range(n)))
+
+    def split(self, sep, maxsplit=-1):
+        sep = _items(sep)
+        out, cur, i = [], [], 0
+        while i < len(self.items):
+            if (maxsplit < 0 or len(out) < maxsplit) and i + len(sep) <= len(self.items) and all(self.items[i + k] == sep[k] for k in range(len(sep))):
+                out.append(mk_bytes(cur))
+                cur = []
+                i += len(sep)
+            else:
+                cur.append(self.items[i])
+                i += 1
+        out.append(mk_bytes(cur))
+        return out
+
+    def partition(self, sep):
+        i = self.find(sep)
+        if i < 0:
+            return self, b"", b""
+        return mk_bytes(self.items[:i]), bytes(_items(sep)), mk_bytes(self.items[i + len(_items(sep)) :])
+
     def startswith(self, p):
         p = _items(p)
         return len(p) <= len(self.items) and all(a == b for a, b in zip(self.items, p))
@@ -300,13 +353,15 @@ class PyStruct:
         self.fields = []
         body = fmt[1:]
         pos = 0
-        for m in re.finditer(r"(\d*)([BHIs])", body):
+        for m in re.finditer(r"(\d*)([BHIsx])", body):
             if m.start() != pos:
                 raise Inconclusive("struct format %r not modelled" % (fmt,))
             pos = m.end()
             cnt, ch = m.groups()
             if ch == "s":
                 self.fields.append(("s", int(cnt or "1")))
+            elif ch == "x":
+                self.fields.append(("x", int(cnt or "1")))
             else:
                 for _ in range(int(cnt or "1")):
                     self.fields.append((ch, self._SIZES[ch]))
@@ -319,10 +374,16 @@ class PyStruct:
     def pack(self, *vals):
         if all(isinstance(v, (int, bytes, bytearray)) for v in vals):
             return self._real.pack(*vals)
-        if len(vals) != len(self.fields):
-            raise _struct.error("pack expected %d items for packing (got %d)" % (len(self.fields), len(vals)))
+        nvals = len([f for f in self.fields if f[0] != "x"])
+        if len(vals) != nvals:
+            raise _struct.error("pack expected %d items for packing (got %d)" % (nvals, len(vals)))
         out = []
-        for (ch, n), v in zip(self.fields, vals):
+        it = iter(vals)
+        for (ch, n) in self.fields:
+            if ch == "x":
+                out.extend([0] * n)
+                continue
+            v = next(it)
             if ch == "s":
                 if not isinstance(v, (bytes, bytearray, SymBytes, SymByteArray)):
                     raise _struct.error("argument for 's' must be a bytes object")
@@ -350,7 +411,9 @@ class PyStruct:
         res = []
         pos = 0
         for ch, n in self.fields:
-            if ch == "s":
+            if ch == "x":
+                pass
+            elif ch == "s":
                 res.append(mk_bytes(buf[pos : pos + n]))
             else:
                 v = 0
@@ -450,6 +513,41 @@ class ScanSet(frozenset):
 
 
 _MISSING = object()
+
+
+def _is_sym_key(x):
+    return type(x) is SymInt or type(x) is SymStr or type(x) is SymBytes
+
+
+def sx_in(x, c):
+    """stand-in for  `x in c`: equality scan when x is symbolic and c is a builtin container
+    (identical to hashing for ints/bytes; avoids forking over every value of x)"""
+    if _is_sym_key(x) and type(c) in (set, frozenset, dict, list, tuple) or (_is_sym_key(x) and isinstance(c, (set, frozenset, dict))):
+        for k in c:
+            if x == k:
+                return True
+        return False
+    return x in c
+
+
+def sx_getitem(c, k):
+    """stand-in for  c[k]  in load context"""
+    if type(k) is SymInt and isinstance(c, dict) and not isinstance(c, ScanDict):
+        for kk in c:
+            if k == kk:
+                return c[kk]
+        return c[int(k)]  # missing: let the container decide (KeyError / __missing__)
+    return c[k]
+
+
+def sx_get(obj, *args, **kw):
+    """stand-in for  obj.get(...)"""
+    if args and type(args[0]) is SymInt and isinstance(obj, dict) and not isinstance(obj, ScanDict) and not kw:
+        for kk in obj:
+            if args[0] == kk:
+                return obj[kk]
+        return args[1] if len(args) > 1 else None
+    return obj.get(*args, **kw)
 
 # ------------------------------------------------------------------ enum lookup by value
 _orig_enum_call = enum.EnumMeta.__call__
